@@ -47,7 +47,7 @@ class FileGen:
     def tmap(self, maxn=6):
         rnd = self.rnd
         n = rnd.choice([0, 1, 2, 3, maxn])
-        return [{'tid': rnd.randrange(1, 5), 'pid': rnd.randrange(1, 5), 'name': rnd.choice(NAMES)} for _ in range(n)]
+        return [{'tid': rnd.randrange(0, 5), 'pid': rnd.randrange(0, 5), 'name': rnd.choice(NAMES)} for _ in range(n)]
 
     def record(self, lead=None):
         """64 bytes; lead: None = random, 'nz' = first byte non-zero, 'z' = first k bytes zero but not all-zero."""
@@ -86,8 +86,8 @@ class FileGen:
         if kind == 'logs':
             evs = []
             for _ in range(rnd.randrange(0, 4)):
-                evs.append({'cm': rnd.randrange(1, len(strings) + 1),
-                            'p': rnd.choice([0, rnd.randrange(1, len(strings) + 1)]),
+                evs.append({'cm': rnd.randrange(0, len(strings)),
+                            'p': rnd.choice([-1, rnd.randrange(0, len(strings))]),
                             'tid': rnd.choice([0, 1, 2, 5, 6]), 'pid': rnd.randrange(0, 6)})
             return {'tag': 'logs', 'evs': evs}
         if kind == 'other':
@@ -141,7 +141,7 @@ def raw_log(l, k):
     d = {'cm': l['cm'], 't': 'logEvent', 's': 100 + k, 'tid': ctid(l['tid']), 'ns': 5, 'mct': 6,
          'b': b'B' * 16, 'piu': b'P' * 16, 'ud': {'sec': 1600000000 + k, 'usec': 7}, 'utz': {'mw': 0, 'dt': 0},
          'pid': cpid(l['pid'])}
-    if l['p']:
+    if l['p'] >= 0:
         d['p'] = l['p']
     return d
 
@@ -170,7 +170,7 @@ def encode_file(f):
                 evs.append(raw_log(l, k))
             payload = plistlib.dumps({'Events': evs}, fmt=plistlib.FMT_BINARY)
         elif t == 'strings':
-            payload = plistlib.dumps({'StringIndex': {s: i + 1 for i, s in enumerate(b['idx'])}},
+            payload = plistlib.dumps({'StringIndex': {s: i for i, s in enumerate(b['idx'])}},
                                      fmt=plistlib.FMT_BINARY)
         else:
             payload = b'ignored payload'
